@@ -104,6 +104,20 @@ def _gen_mode(rng, prog, kind, n_events, horizon_ns):
             mode["bps"] = [_bp_spec(rng, prog["n_ent"], horizon_ns, n_events) for _ in range(rng.randrange(0, 3))]
             if rng.random() < 0.3:
                 mode["script"].insert(rng.randrange(len(mode["script"]) + 1), {"op": "add_bp", "bp": _bp_spec(rng, prog["n_ent"], horizon_ns, n_events)})
+    elif kind == "M8":
+        # steps AND breakpoints: pause_first, then only step(n) / resume commands, no pause requests
+        mode["control"] = mode["hooks"] = mode["pause_first"] = True
+        mode["bps"] = [_bp_spec(rng, prog["n_ent"], horizon_ns, n_events) for _ in range(rng.randrange(1, 4))]
+        for _ in range(rng.randrange(1, 10)):
+            if rng.random() < 0.75:
+                mode["script"].append({"op": "step", "n": rng.choice([1, 1, 2, 3, 5, 9, max(1, n_events // 3)])})
+            else:
+                mode["script"].append({"op": "resume"})
+        # half of the time make one step end exactly on the first delivery satisfying a count breakpoint
+        if rng.random() < 0.5 and n_events >= 2:
+            k = rng.randrange(1, n_events + 1)
+            mode["bps"].append({"k": "count", "n": k, "one_shot": rng.random() < 0.7})
+            mode["script"].insert(0, {"op": "step", "n": k})
     elif kind == "M6":
         mode["control"] = mode["hooks"] = True
         mode["bps"] = [_bp_spec(rng, prog["n_ent"], horizon_ns, n_events) for _ in range(rng.randrange(1, 4))]
@@ -136,7 +150,7 @@ def _baseline_shape(prog):
 def gen_modes(rng: random.Random, tier: str) -> dict:
     prog = gen_program(rng, futures=rng.random() < 0.4, hooks=rng.random() < 0.4, max_pre=20)
     n_events, horizon = _baseline_shape(prog)
-    kinds = ["M1", "M2", "M3", "M4", "M5", "M5", "M6", "M6", "M7", "M7"]
+    kinds = ["M1", "M2", "M3", "M4", "M5", "M5", "M6", "M6", "M7", "M7", "M8", "M8"]
     modes = [_gen_mode(rng, prog, k, n_events, horizon) for k in kinds]
     return {"program": prog, "modes": modes}
 
@@ -276,6 +290,8 @@ def drive(prog, mode, res: Result | None = None, check_positions: bool = True, b
             ctl.add_breakpoint(bp.build(bp_cache))
             active.append(bp)
         only_bps = mode["kind"] == "M6"
+        steps_and_bps = mode["kind"] == "M8"
+        last_cmd = None
         if mode.get("pause_first"):
             ctl.pause()
         sim.run()
@@ -298,9 +314,18 @@ def drive(prog, mode, res: Result | None = None, check_positions: bool = True, b
                     last = seg[-1]
                     active[:] = [b for b in active if not (b.one_shot and b.holds(last))]
                 since_resume[0] = len(deliveries)
+            if steps_and_bps and res is not None and check_positions:
+                seg = deliveries[since_resume[0] :]
+                _check_step_bp_pause(res, seg, active, last_cmd)
+                info["bp_pauses_checked"] += 1
+                if seg:
+                    last = seg[-1]
+                    active[:] = [b for b in active if not (b.one_shot and b.holds(last))]
+                since_resume[0] = len(deliveries)
             cmd = script[i] if i < len(script) else {"op": "resume"}
             i += 1
             op = cmd["op"]
+            last_cmd = cmd
             if op in ("step", "pause_step"):
                 before = st.events_processed
                 if op == "pause_step":
@@ -337,13 +362,40 @@ def drive(prog, mode, res: Result | None = None, check_positions: bool = True, b
                 bp = _BP(cmd["bp"], since=len(deliveries))
                 ctl.add_breakpoint(bp.build(bp_cache))
                 active.append(bp)
-        if only_bps and res is not None and check_positions:
+        if (only_bps or steps_and_bps) and res is not None and check_positions:
             _check_bp_pause(res, deliveries[since_resume[0] :], active, paused=False)
         info["deliveries_seen_by_hook"] = len(deliveries)
         return rr, sim, info
     finally:
         if mode.get("tracing"):
             _ev.disable_event_tracing()
+
+
+def _check_step_bp_pause(res, seg, active, last_cmd):
+    """Paused with steps and breakpoints as the only sources of pauses.  seg: deliveries since the last command.
+    The pause must come right after min(n-th delivery of step(n), first delivery satisfying an active breakpoint)."""
+    if last_cmd is None:
+        if seg:
+            res.add("breakpoint-position", "SimulationControl", "pause-before-first-event-came-late", f"{len(seg)} deliveries before the initial pause")
+        return
+    n = last_cmd["n"] if last_cmd["op"] == "step" else None
+    first = None
+    for j, d in enumerate(seg):
+        hit = [b for b in active if b.holds(d)]
+        if hit:
+            first = (j, hit[0].spec["k"])
+            break
+    want = min([x for x in (n, first[0] + 1 if first else None) if x is not None], default=None)
+    if want is None:
+        res.add("breakpoint-position", "SimulationControl", "paused-without-step-or-satisfied-breakpoint", f"paused after {len(seg)} deliveries of resume() with active {[b.spec for b in active]}")
+    elif len(seg) != want:
+        why = "step-budget" if first is None or (n is not None and n < first[0] + 1) else f"breakpoint-{first[1]}" + ("-on-last-delivery-of-step" if n == first[0] + 1 else "")
+        res.add(
+            "breakpoint-position",
+            "SimulationControl",
+            ("paused-late-" if len(seg) > want else "paused-early-") + why,
+            f"{last_cmd} then paused after {len(seg)} deliveries, expected {want} (first satisfying delivery: {first})",
+        )
 
 
 def _check_bp_pause(res, seg, active, paused):
